@@ -130,9 +130,9 @@ class CEMIHandler:
             self._l_data_confirmation_event.set()
             logger.debug("Incoming CEMI confirmation: %s", cemi)
             return
-        if cemi.code is CEMIMessageCode.L_DATA_REQ:
-            # L_DATA_REQ frames should only be outgoing.
-            logger.warning("Received unexpected L_DATA_REQ frame: %s", cemi)
+        if cemi.code is not CEMIMessageCode.L_DATA_IND:
+            # only indications are received data - eg. L_DATA_REQ frames should only be outgoing
+            logger.warning("Received unexpected %s frame: %s", cemi.code.name, cemi)
             self.xknx.connection_manager.cemi_count_incoming_error += 1
             return
         logger.debug("Incoming CEMI: %s", cemi)
